@@ -40,6 +40,8 @@ def strat_sample(tier):
             'extra': st.one_of(st.none(), values(n)),
             'weights': st.one_of(st.none(), st.lists(st.one_of(st.floats(1e-3, 1e3, allow_nan=False), st.integers(1, 5).map(float)), min_size=n, max_size=n)),
             'formats': st.lists(st.sampled_from(['pkl', 'json', 'csv']), min_size=1, max_size=3),
+            # key order of the outputs dict handed to the constructor (None: parameter-name order, then the discrepancy)
+            'outputs_order': st.one_of(st.none(), st.integers(0, 1000)),
         })
     return st.tuples(st.lists(st.sampled_from(PN), min_size=1, max_size=4, unique=True), st.integers(1, 60)).flatmap(build)
 
@@ -59,8 +61,13 @@ def run_sample(case):
     outputs = dict(cols)
     if case['extra'] is not None:
         outputs['d'] = np.array(case['extra'], dtype=float)
+    if case.get('outputs_order') is not None:
+        import random
+        keys = list(outputs)
+        random.Random(case['outputs_order']).shuffle(keys)
+        outputs = {k: outputs[k] for k in keys}
     w = None if case['weights'] is None else np.array(case['weights'], dtype=float)
-    ctx = 'names=%r n=%d weights=%s formats=%r' % (names, n, 'yes' if w is not None else 'none', case['formats'])
+    ctx = 'names=%r n=%d weights=%s formats=%r outputs keyed %r' % (names, n, 'yes' if w is not None else 'none', case['formats'], list(outputs))
     with must_not_raise(P, 'constructing the Sample; ' + ctx):
         s = Sample(method_name='test', outputs={k: v.copy() for k, v in outputs.items()}, parameter_names=list(names),
                    discrepancy_name='d' if 'd' in outputs else None, weights=None if w is None else w.copy(), n_sim=3 * n)
